@@ -82,7 +82,14 @@ def project(m, workdir=None):
                                        sort_keys=True).encode()).hexdigest()[:16]
     except Exception as ex:
         dg = "no-output:" + type(ex).__name__
-    return dict(nodes=nodes, edges=edges, observed=observed, params=params, priv=priv, pnames=pnames, dg=dg)
+    # the public view of the positional parents: get_parents(x) lists them in position order
+    gp = []
+    for n in m.nodes:
+        try:
+            gp.append([rename(n), [rename(p) for p in m.get_parents(n)]])
+        except Exception:
+            gp.append([rename(n), ["?"]])
+    return dict(nodes=nodes, edges=edges, observed=observed, params=params, priv=priv, pnames=pnames, dg=dg, gp=gp)
 
 
 def record(sc):
